@@ -73,6 +73,17 @@ CLAIMED = {
             "strings, slices of every primitive, slices of strings/byte slices over all contents up to the stated lengths (all length "
             "combinations); order axioms on triples. Not decidable here: the ordering of bool (Kani 0.68 mis-models `<` on bool) - only "
             "bool equality is claimed. Open finding: exhausted RangeInclusive.", "DESIGN.md#c16"),
+    "C06": (BMC + "a naive first/last-occurrence splitter: one step (+ the following call) from every state of each split iterator, bounded protocols to exhaustion, the empty-delimiter rule",
+            "Every state of a split iterator is its not-yet-split part plus Normal/Finished, and split(&s[a..b], d) is that state; one "
+            "step from every window of every string up to the bound, for str (1..=2 bytes) and char delimiters, yields the piece up to the "
+            "first (last) occurrence, leaves the rest as remainder, applies the terminator / mirrored rule and finishes exactly when no "
+            "delimiter is left; induction gives the whole sequence. Bounded runs to exhaustion, rev() and the empty-delimiter forms are "
+            "checked in addition.", "DESIGN.md#c06"),
+    "C18": (BMC + "a naive specification of the six parser_method! forms over generated literal programs; the same literal tokens used as &str are the oracle for literal decoding",
+            "Generated programs (every literal atom kind once; seeded samples of 1-3 branches x 1-2 alternatives per method) are first "
+            "compiled by rustc (a literal the macro rejects although rustc accepts it is a violation) and then the solver compares branch "
+            "taken, remainder and offsets with the specification for every valid UTF-8 input up to 3-4 bytes. The proc macro's own "
+            "execution is not symbolically executed, only its output per generated literal.", "DESIGN.md#c18"),
     "C19": (BMC + "the std Option/Result methods, `?`, core::cmp::{min,max,..}; generated rebind programs are first compiled (acceptance) then solver-checked",
             "All payloads are 8-bit and fully symbolic and closures come from symbolic xor/mask families with call counters, so each "
             "harness is exhaustive in the values; macro forms (closure / function path) and the rebind program family (arity 1..6 x "
